@@ -54,6 +54,7 @@ class TArray:
     cap: int
     ext: bool = False
     cap_text: Optional[str] = None  # textual capacity if not the plain literal
+    cap_const: Any = None  # the Const the capacity text refers to (if it is a reference)
 
     def text(self) -> str:
         cap = self.cap_text if self.cap_text is not None else str(self.cap)
